@@ -374,7 +374,14 @@ def run_straight(ctx, res, drv, meta, n):
 # ================================================================================================================
 PRELUDE = ("#include <vector>\n#include <deque>\n#include <list>\n#include <string>\n#include <set>\n#include <map>\n#include <array>\n"
            "#include <cstdio>\n#include <cstdlib>\n#include <utility>\n"
-           "static void P(int id, std::size_t n) { std::printf(\"%d=%zu\\n\", id, n); }\n")
+           "static void P(int id, std::size_t n) { std::printf(\"%d=%zu\\n\", id, n); }\n"
+           "static void h_grow(std::vector<int> &v) { v.push_back(9); }\n"
+           "static void h_look(const std::vector<int> &v) { (void)v.size(); }\n"
+           "static void h_shrink(std::vector<int> &v) { if (!v.empty()) v.pop_back(); }\n"
+           "static void h_byval(std::vector<int> v) { v.clear(); }\n"
+           "static void h_ptr(std::vector<int> *v) { v->push_back(1); }\n"
+           "static void h_sgrow(std::string &s) { s += \"q\"; }\n"
+           "static std::vector<int> h_make(int n) { return std::vector<int>(static_cast<std::size_t>(n & 3), 1); }\n")
 E2E_TYPES = [("vector", "std::vector<int>"), ("deque", "std::deque<int>"), ("list", "std::list<int>"), ("string", "std::string"),
              ("set", "std::set<int>"), ("map", "std::map<int, int>"), ("array", "std::array<int, 4>")]
 
@@ -442,8 +449,11 @@ class ProgGen:
             opts = ["%s.push_back(%s);" % (name, e)] * 4 + ["%s.clear();" % name, "%s.resize(%d);" % (name, rng.choice([0, 1, 2, 5])),
                     "if (!%s.empty()) %s.pop_back();" % (name, name), "if (%s.size() > 1) %s.pop_back();" % (name, name),
                     "if (!%s.empty()) %s.erase(%s.begin());" % (name, name, name), "%s.insert(%s.begin(), %s);" % (name, name, e)]
+            if kind == "vector":
+                opts += ["h_grow(%s);" % name, "h_look(%s);" % name, "h_shrink(%s);" % name, "h_byval(%s);" % name, "h_ptr(&%s);" % name,
+                         "%s = h_make(a);" % name]
             if kind == "string":
-                opts += ['%s += "xy";' % name, '%s.append("z");' % name, '%s = "hello";' % name, "%s += 'c';" % name]
+                opts += ['%s += "xy";' % name, '%s.append("z");' % name, '%s = "hello";' % name, "%s += 'c';" % name, "h_sgrow(%s);" % name]
             else:
                 opts += ["%s.emplace_back(%s);" % (name, e), "%s.assign(3, 1);" % name, "%s = {4, 5};" % name]
             if kind in ("deque", "list"):
@@ -487,12 +497,16 @@ class ProgGen:
             else:
                 self.mutate(n1, k1, ind)
         else:
-            self.emit("while (%s.size() < %d) {" % (name, rng.choice([1, 2, 3])), ind) if kind not in ("array",) else self.emit("{", ind)
-            if kind in ("set", "map"):
-                self.emit("%s.insert(%s);" % (name, "static_cast<int>(%s.size())" % name if kind == "set" else "std::make_pair(static_cast<int>(%s.size()), 0)" % name), ind + 1)
-            elif kind == "array":
+            lim = rng.choice([1, 2, 3])
+            if kind == "array":
+                self.emit("{", ind)
                 self.emit("%s[0] = 1;" % name, ind + 1)
+            elif kind in ("set", "map"):
+                # fresh keys: the loop terminates whatever the container holds
+                self.emit("for (int k = 0; %s.size() < %d; k++) {" % (name, lim), ind)
+                self.emit("%s.insert(%s);" % (name, "1000 + k" if kind == "set" else "std::make_pair(1000 + k, 0)"), ind + 1)
             else:
+                self.emit("while (%s.size() < %d) {" % (name, lim), ind)
                 self.emit("%s.push_back(%s);" % (name, self.elem(kind)), ind + 1)
             self.emit("}", ind)
 
@@ -549,7 +563,7 @@ def native_build(src):
         return exe, ""
     cpath = os.path.join(CACHE, h + ".cpp")
     open(cpath, "w").write(src)
-    rc, out, err = core.sh(["g++", "-std=gnu++17", "-O0", "-g0", "-w", "-D_GLIBCXX_ASSERTIONS", "-fsanitize=address,undefined", "-fno-sanitize-recover=all",
+    rc, out, err = core.sh(["g++", "-std=gnu++17", "-O0", "-g0", "-w", "-D_GLIBCXX_ASSERTIONS", "-fsanitize=address",
                             cpath, "-o", exe + ".tmp"], timeout=1200)
     if rc != 0:
         return None, err
@@ -597,7 +611,7 @@ def run_e2e(ctx, res, n):
     def runk(k):
         obs, ok = {}, True
         for (a, b) in ARGS:
-            rc, out, err = core.sh([exe, str(k), str(a), str(b)], timeout=60, env={"ASAN_OPTIONS": "detect_leaks=0"})
+            rc, out, err = core.sh([exe, str(k), str(a), str(b)], timeout=10, env={"ASAN_OPTIONS": "detect_leaks=0"})
             if rc != 0 or "DONE" not in out:
                 ok = False
                 continue
@@ -675,13 +689,22 @@ def load_corpus():
 
 
 def run(ctx, res):
+    import time
     thorough = ctx.tier == "thorough"
+    phases, t0 = {}, [time.time()]
+    def mark(name):
+        phases[name] = round(time.time() - t0[0], 1)
+        t0[0] = time.time()
+    res.extra["phase_seconds"] = phases
     rows, meta, problems = translate(ctx)
     res.oblig("translate:std.cfg-containers", not problems, "translation", "; ".join(problems))
     res.extra["table_rows"] = len(rows)
+    mark("translator")
     core.prove(ctx, res, MODULES, THEOREMS)
+    mark("lake build + axiom audit (incl. waiting for the shared lake lock)")
     drv = ctx.driver("drv_c02")
     exe = ctx.harness("c02")
+    mark("driver + harness build")
     # ---- T: translator against the loader, enumerations against the model --------------------------------------------------------
     lt, why = loader_table(ctx, exe)
     if lt is None:
@@ -711,12 +734,15 @@ def run(ctx, res):
     rc, snd, err = core.run_lines(drv, [], ["sound %s %s %d %d" % r for r in rows])
     unsound = ["%s.%s" % (r[0], r[1]) for r, s in zip(rows, snd) if s != "1"]
     res.extra["unsound_rows"] = unsound
+    mark("table checks")
     run_straight(ctx, res, drv, meta, 2500 if thorough else 250)
+    mark("straight-line correspondence")
     if thorough:
         for _ in range(6):
             run_e2e(ctx, res, 300)
     else:
-        run_e2e(ctx, res, 120)
+        run_e2e(ctx, res, 90)
+    mark("end-to-end programs")
 
 
 def replay(ctx, res, rp):
